@@ -197,6 +197,7 @@ func (s *SendC[T]) complete(t *Task) {
 type opSelect struct {
 	cases      []Case
 	hasDefault bool
+	pri        bool // prioritised: only the first ready case (in source order) is enabled
 	desc       string
 }
 
@@ -266,6 +267,9 @@ func (o *opSelect) enabled(s *Sched, t *Task, out []Alt) []Alt {
 		}
 		if caseReady(s, t, c) {
 			out = append(out, Alt{T: t, Case: i})
+			if o.pri {
+				return out
+			}
 			continue
 		}
 		if k.capn == 0 && k.wrap == nil && !k.closed {
@@ -283,7 +287,7 @@ func (o *opSelect) enabled(s *Sched, t *Task, out []Alt) []Alt {
 	return out
 }
 
-func (o *opSelect) String() string { return o.desc }
+func (o *opSelect) String() string { return descCases(o.cases, o.hasDefault) }
 
 type opResume struct{ idx int }
 
@@ -318,17 +322,18 @@ func descCases(cases []Case, hasDefault bool) string {
 
 // Select replaces a select statement. It returns the index of the chosen case,
 // or -1 for default.
-func Select(hasDefault bool, cases ...Case) int {
+func Select(hasDefault bool, cases ...Case) int { return doSelect(hasDefault, false, cases) }
+
+// SelectPri is a prioritised select for environment models (not a Go
+// construct): the first ready case in argument order wins.
+func SelectPri(cases ...Case) int { return doSelect(false, true, cases) }
+
+func doSelect(hasDefault, pri bool, cases []Case) int {
 	s, t := cur()
 	if s.aborting {
 		runtime.Goexit()
 	}
-	o := &opSelect{cases: cases, hasDefault: hasDefault}
-	if s.KeepTrace {
-		o.desc = descCases(cases, hasDefault)
-	} else {
-		o.desc = "select"
-	}
+	o := &opSelect{cases: cases, hasDefault: hasDefault, pri: pri}
 	a := s.yield(t, o)
 	if a.resumed {
 		// our send was consumed by a rendezvous performed by the receiver
